@@ -104,7 +104,9 @@ class CallsMixin:
         m = self.iter_model(self.eval(g.iter, st), st)
         if m.setlike is not None:
             raise Unsupported('comprehension over set')
-        i = z3.Int(fresh_name('ci'))
+        # one canonical index symbol for all (non-nested) comprehensions of a function: equal filter conditions then
+        # are syntactically equal terms and can share their position maps
+        i = z3.Int('comp!i')
         inner = st  # bindings are local to the comprehension
         saved = dict(st.env)
         st.guards.append(z3.And(0 <= i, i < m.n))
@@ -129,12 +131,22 @@ class CallsMixin:
         # filtered comprehension: characterised by an order-preserving bijection between kept source indices and
         # result indices (consequence of Python's semantics)
         c = And(*conds)
+        cf = z3.Lambda([i], c)
+        ef = z3.Lambda([i], elt_t)
+        cache = getattr(self, '_filter_cache', None)
+        if cache is None:
+            cache = self._filter_cache = {}
+        ck = z3.simplify(c).sexpr()
+        if ck in cache and any(z3.eq(cache[ck][4][0], p) for p in st.pc) and self.valid(st, cache[ck][5] == m.n, 1000):
+            # the same filter (same condition on the same index range) was already characterised on this path:
+            # the kept positions are the same, only the element expression differs
+            src, dst, rl = cache[ck][:3]
+            r = z3.Int(fresh_name('r'))
+            return self.mk_list(st, elt.ty, rl, z3.Lambda([r], T.Sel(ef, src(r))), kind=kind)
         src = z3.Function(fresh_name('flt_src'), z3.IntSort(), z3.IntSort())   # result idx -> source idx
         dst = z3.Function(fresh_name('flt_dst'), z3.IntSort(), z3.IntSort())   # source idx -> result idx
         rl = z3.Int(fresh_name('flt_len'))
         a, b = z3.Int(fresh_name('a')), z3.Int(fresh_name('b'))
-        cf = z3.Lambda([i], c)
-        ef = z3.Lambda([i], elt_t)
         ax = [rl >= 0, rl <= m.n,
               z3.ForAll([a], z3.Implies(z3.And(0 <= a, a < rl),
                                         z3.And(0 <= src(a), src(a) < m.n, T.Sel(cf, src(a)), dst(src(a)) == a))),
@@ -145,7 +157,7 @@ class CallsMixin:
             st.assume(x) if not st.guards else (_ for _ in ()).throw(Unsupported('filtered comprehension under guard'))
         r = z3.Int(fresh_name('r'))
         res = self.mk_list(st, elt.ty, rl, z3.Lambda([r], T.Sel(ef, src(r))), kind=kind)
-        self.last_filter = dict(src=src, dst=dst, n=m.n, cond=cf)
+        cache[ck] = (src, dst, rl, None, ax, m.n)
         return res
 
     def quant_over(self, node, st, is_all):
